@@ -27,6 +27,7 @@ type c12Case struct {
 	Calls     []call     `json:"calls"`
 	Plain     []int      `json:"plain_requests_per_terminal"` // heartbeats/locations sent while commands are outstanding
 	Reverse   bool       `json:"release_held_in_reverse"`
+	Preload   int        `json:"preload_heartbeats,omitempty"` // heartbeats answered on terminal 0 before the commands (serial wrap)
 }
 
 var commandIDs = []uint16{0x8103, 0x8104, 0x8801, 0x9101, 0x9102, 0x9205, 0x9206, 0x9207}
@@ -92,8 +93,22 @@ func c12Scenario(c c12Case) Scenario {
 			}
 		}
 		steps := []Step{{Op: "dial"}, {Op: "respond", Rules: rules},
-			{Op: "write", Hex: frame(id, 0x0002, 1, nil)}, {Op: "wait_frames", N: 1, DeadlineMs: 5000},
-			{Op: "barrier", Barrier: "joined", Parties: parties}}
+			{Op: "write", Hex: frame(id, 0x0002, 1, nil)}, {Op: "wait_frames", N: 1, DeadlineMs: 5000}}
+		if i == 0 && c.Preload > 0 {
+			var chunk []byte
+			for k := 0; k < c.Preload; k++ {
+				chunk = append(chunk, frame(id, 0x0002, uint16(2000+k), nil)...)
+				if len(chunk) > 900 || k == c.Preload-1 {
+					steps = append(steps, Step{Op: "write", Hex: chunk})
+					chunk = nil
+					if k%3000 < 60 {
+						steps = append(steps, Step{Op: "wait_frames", N: k + 2, DeadlineMs: 20000})
+					}
+				}
+			}
+			steps = append(steps, Step{Op: "wait_frames", N: c.Preload + 1, DeadlineMs: 30000})
+		}
+		steps = append(steps, Step{Op: "barrier", Barrier: "joined", Parties: parties})
 		for p := 0; p < c.Plain[i]; p++ {
 			steps = append(steps, Step{Op: "pause", PauseUs: 3000}, Step{Op: "write", Hex: frame(id, 0x0200, uint16(100+p), append(make([]byte, 22), bcdTime...))})
 		}
@@ -170,8 +185,8 @@ func checkC12(c c12Case, _ *kit.Collector) kit.Result {
 		}
 		// every frame the server wrote on this connection: consecutive platform serials from 0, right addressing
 		for k, f := range frames {
-			if int(f.Serial) != k {
-				res.Err = kit.Fail("%s: frame %d from the server (id %#04x) carries platform serial %d, want %d", name, k, f.ID, f.Serial, k)
+			if int(f.Serial) != k&0xffff {
+				res.Err = kit.Fail("%s: frame %d from the server (id %#04x) carries platform serial %d, want %d", name, k, f.ID, f.Serial, k&0xffff)
 				return res
 			}
 			if !bytes.Equal(f.PhoneBCD, id.bcd()) || f.Version2019 != id.V2019 {
@@ -181,6 +196,9 @@ func checkC12(c c12Case, _ *kit.Collector) kit.Result {
 		}
 		// plain traffic is still answered: one 0x8001 per heartbeat/location
 		wantReplies := 2 + c.Plain[i]
+		if i == 0 {
+			wantReplies += c.Preload
+		}
 		got := 0
 		for _, f := range frames {
 			if f.ID == 0x8001 {
@@ -292,3 +310,27 @@ func TestC12(t *testing.T) {
 }
 
 var _ = kit.Hex{}
+
+// TestC12Wrap: the outstanding commands' serials straddle the 16-bit wrap (65 533 replies first), both tiers.
+func TestC12Wrap(t *testing.T) {
+	kit.Enum(t, "C12", "TestC12Wrap", "TestC12", func(col *kit.Collector) (any, error) {
+		c := c12Case{Terminals: []identity{{Digits: "13800131000"}}, Plain: []int{1}, Reverse: true, Preload: 65533}
+		for i, b := range []string{"hold", "answer", "hold", "ignore", "hold", "dup"} {
+			k := call{ID: i + 1, Terminal: 0, Cmd: commandIDs[i%len(commandIDs)], Behaviour: b, TimeoutMs: 2500}
+			if b == "ignore" {
+				k.TimeoutMs = 100
+			}
+			c.Calls = append(c.Calls, k)
+		}
+		check := softRetry(checkC12)
+		res := check(c, col)
+		res.NT = true
+		res.Labels = append(res.Labels, "serial_wrap")
+		col.RecordHash(1, res, func() any { return map[string]any{"preload": c.Preload, "calls": c.Calls} })
+		col.RecordHash(2, kit.Result{NT: true, Labels: []string{"serial_wrap"}}, nil)
+		if res.Err != nil {
+			return c, res.Err
+		}
+		return nil, nil
+	})
+}
